@@ -2187,6 +2187,16 @@ impl TieredEngine {
         self.cold_tier
             .insert(doc_id, embedding.clone(), metadata.clone())?;
 
+        // Keep recent writes in hot tier to accelerate mixed hot/cold search merges.
+        let coherence = self.cold_tier.current_coherence_token(doc_id);
+        if let Some(coherence) = coherence {
+            self.hot_tier
+                .insert_with_coherence(doc_id, embedding.clone(), metadata, coherence);
+        }
+
+        // Invalidate only after every tier reflects the write. The invalidation bumps the
+        // query-cache generation; a search that samples the generation afterwards must not be
+        // able to scan the previous mirror entry and store a result computed from it.
         let removed_by_doc = self.query_cache.invalidate_doc(doc_id);
         let removed_by_insert = self
             .query_cache
@@ -2198,13 +2208,11 @@ impl TieredEngine {
             "invalidated query cache entries affected by insert"
         );
 
-        // Keep recent writes in hot tier to accelerate mixed hot/cold search merges.
-        let coherence = self
-            .cold_tier
-            .current_coherence_token(doc_id)
-            .ok_or_else(|| anyhow!("insert succeeded but cold tier has no canonical token"))?;
-        self.hot_tier
-            .insert_with_coherence(doc_id, embedding, metadata, coherence);
+        if coherence.is_none() {
+            return Err(anyhow!(
+                "insert succeeded but cold tier has no canonical token"
+            ));
+        }
 
         let mut stats = self.stats.write();
         stats.total_inserts += 1;
